@@ -2,6 +2,7 @@
 // environment, clock, randomness. The sim_* functions replace the libc entry points
 // inside the c-ares objects (objcopy --redefine-syms).
 #include "sim.h"
+#include <algorithm>
 #include "simsched.h"
 #include <errno.h>
 #include <fcntl.h>
@@ -439,6 +440,7 @@ static ssize_t do_send(int fd, const void *buf, size_t n, int call) {
   if (W.take_fault(FC_SEND, fd, ft)) {
     if (ft.mode == 0) {
       if (ft.err == EAGAIN && f->kind == FD_TCP) f->write_blocked = true;
+      if (ft.err == EAGAIN && f->kind == FD_UDP) f->eagain_payloads.push_back({hash_bytes(0xEA6A, buf, n), W.seq + 1});
       return fail(call, fd, ft.err, (long)n);
     }
     if (ft.mode == 1 && f->kind == FD_TCP && ft.param > 0 && (size_t)ft.param < n) limit = (size_t)ft.param;
@@ -448,7 +450,13 @@ static ssize_t do_send(int fd, const void *buf, size_t n, int call) {
     if (f->so_error) { int e = f->so_error; f->so_error = 0; return fail(call, fd, e, (long)n); }
     f->n_send_ok++;
     W.log(call, fd, (long)n, 0, (long)n);
+    if (!f->eagain_payloads.empty()) {
+      uint64_t h = hash_bytes(0xEA6A, buf, n);
+      auto it = std::find_if(f->eagain_payloads.begin(), f->eagain_payloads.end(), [h](const std::pair<uint64_t, uint32_t> &p) { return p.first == h; });
+      if (it != f->eagain_payloads.end()) { W.next_tx_lseq = it->second; f->eagain_payloads.erase(it); W.next_tx_deferred = true; W.bump("udp_datagram_sent_after_eagain"); }
+    }
     W.client_send_dgram(*f, std::string((const char *)buf, n));
+    W.next_tx_deferred = false;
     return (ssize_t)n;
   }
   // TCP
